@@ -42,6 +42,7 @@ fn family(name: &str) -> GenCfg {
         late: false,
         reuse: false,
         inherit: false,
+        casv: false,
     };
     match name {
         "mixed" => base,
@@ -85,6 +86,8 @@ fn family(name: &str) -> GenCfg {
         "reuse" => GenCfg { threads: (5, 7), containers: 2, strategy: 1, reuse: true, with_null: false, ..base },
         // a newcomer inherits a node whose eight fast slots are all taken
         "inherit" => GenCfg { threads: (2, 3), containers: 2, inherit: true, with_null: false, ..base },
+        // compare_and_swap with the guard given by value against writers of fresh values (addresses recycle)
+        "casaba" => GenCfg { threads: (2, 3), casv: true, with_null: false, ..base },
         "helpab" => GenCfg { threads: (2, 3), containers: 2, strategy: 1, alternate: true, with_null: false, ..base },
         "xtype" => GenCfg { threads: (3, 4), second_type: true, w: [9, 3, 4, 1, 7, 3, 1, 1, 1], ops: (3, 7), with_null: false, ..base },
         other => panic!("unknown family {}", other),
